@@ -1,0 +1,192 @@
+//go:build verif
+
+package cmd
+
+import (
+	"context"
+	"log/slog"
+	"net/url"
+	"os"
+	"sync"
+	"syscall"
+	"time"
+
+	"github.com/AdguardTeam/AdGuardDNS/internal/agd"
+	"github.com/AdguardTeam/AdGuardDNS/internal/agdservice"
+	"github.com/AdguardTeam/AdGuardDNS/internal/billstat"
+	"github.com/AdguardTeam/AdGuardDNS/internal/debugsvc"
+	"github.com/AdguardTeam/AdGuardDNS/internal/errcoll"
+	"github.com/AdguardTeam/AdGuardDNS/internal/metrics"
+	"github.com/AdguardTeam/golibs/logutil/slogutil"
+	"github.com/AdguardTeam/golibs/netutil/urlutil"
+	"github.com/AdguardTeam/golibs/osutil"
+	"github.com/AdguardTeam/golibs/service"
+	"github.com/prometheus/client_golang/prometheus"
+	"gopkg.in/yaml.v2"
+)
+
+// Verification hooks for property C16: the production wiring of the billing
+// statistics.  [VerifC16InitBillStat] runs the unchanged builder methods
+// ([builder.setServerGroupProperties], [builder.initGRPCMetrics],
+// [builder.initBillStat], hence [builder.newBillStatUploader],
+// [backendpb.NewBillStat], [metrics.NewBillstat], the refresh worker and the
+// builder's signal handler) on a configuration parsed from YAML and an
+// environment given by the harness.
+
+// VerifC16Env is the part of the environment the billing wiring could read.
+type VerifC16Env struct {
+	// BillStatURL is BILLSTAT_URL.
+	BillStatURL *url.URL
+
+	// BillStatAPIKey is BILLSTAT_API_KEY.
+	BillStatAPIKey string
+
+	// ProfilesURL is PROFILES_URL.
+	ProfilesURL *url.URL
+
+	// ProfilesAPIKey is PROFILES_API_KEY.
+	ProfilesAPIKey string
+}
+
+// VerifC16Wired is what [builder.initBillStat] has built.
+type VerifC16Wired struct {
+	// Recorder is b.billStat, the value [builder.initDNS] hands to the DNS
+	// service as its billing recorder.
+	Recorder billstat.Recorder
+
+	// DebugRefresher is what the debug API refreshes under the billstat ID, or
+	// nil if there is none.
+	DebugRefresher agdservice.Refresher
+
+	// AddService registers a service in the builder's signal handler the way
+	// [builder.mustStartDNS] registers the DNS service, which happens after
+	// [builder.initBillStat].
+	AddService func(svc service.Interface)
+
+	// Shutdown delivers a termination signal to the builder's signal handler
+	// and runs it, as [builder.handleSignals] does, until every registered
+	// service has been shut down.
+	Shutdown func(ctx context.Context) (code osutil.ExitCode)
+
+	// BackendTimeout is the parsed backend.timeout.
+	BackendTimeout time.Duration
+
+	// BillStatIvl is the parsed backend.bill_stat_interval.
+	BillStatIvl time.Duration
+}
+
+// verifC16Notifier is an [osutil.SignalNotifier] that hands the channel of the
+// signal handler to the hook instead of subscribing to the signals of the
+// process.
+type verifC16Notifier struct {
+	mu *sync.Mutex
+	c  chan<- os.Signal
+}
+
+// type check
+var _ osutil.SignalNotifier = (*verifC16Notifier)(nil)
+
+// Notify implements the [osutil.SignalNotifier] interface for
+// *verifC16Notifier.
+func (n *verifC16Notifier) Notify(c chan<- os.Signal, _ ...os.Signal) {
+	n.mu.Lock()
+	defer n.mu.Unlock()
+
+	n.c = c
+}
+
+// Stop implements the [osutil.SignalNotifier] interface for *verifC16Notifier.
+func (n *verifC16Notifier) Stop(_ chan<- os.Signal) {}
+
+// VerifC16ValidateBackend parses the configuration and runs the start-up
+// validation of its backend section only.
+func VerifC16ValidateBackend(confYAML []byte) (err error) {
+	c := &configuration{}
+	err = yaml.Unmarshal(confYAML, c)
+	if err != nil {
+		return err
+	}
+
+	return c.Backend.validate()
+}
+
+// VerifC16InitBillStat parses confYAML (the backend section and the types of
+// check.kv and ratelimit.allowlist are read) and
+// initializes the billing statistics the way [Main] does.  profilesEnabled has
+// one element per server group.
+func VerifC16InitBillStat(
+	ctx context.Context,
+	confYAML []byte,
+	env *VerifC16Env,
+	profilesEnabled []bool,
+	l *slog.Logger,
+	errColl errcoll.Interface,
+) (w *VerifC16Wired, err error) {
+	c := &configuration{}
+	err = yaml.Unmarshal(confYAML, c)
+	if err != nil {
+		return nil, err
+	}
+
+	var groups []*agd.ServerGroup
+	for _, enabled := range profilesEnabled {
+		groups = append(groups, &agd.ServerGroup{
+			Name:            "verif_c16",
+			ProfilesEnabled: enabled,
+		})
+	}
+
+	notifier := &verifC16Notifier{mu: &sync.Mutex{}}
+	b := &builder{
+		baseLogger: l,
+		conf:       c,
+		debugRefrs: debugsvc.Refreshers{},
+		env: &environment{
+			BillStatURL:    &urlutil.URL{URL: *env.BillStatURL},
+			BillStatAPIKey: env.BillStatAPIKey,
+			ProfilesURL:    &urlutil.URL{URL: *env.ProfilesURL},
+			ProfilesAPIKey: env.ProfilesAPIKey,
+		},
+		errColl:        errColl,
+		logger:         l.With(slogutil.KeyPrefix, "builder"),
+		mtrcNamespace:  metrics.Namespace(),
+		promRegisterer: prometheus.NewRegistry(),
+		sigHdlr: service.NewSignalHandler(&service.SignalHandlerConfig{
+			SignalNotifier:  notifier,
+			Logger:          l,
+			ShutdownTimeout: shutdownTimeout,
+		}),
+		serverGroups: groups,
+	}
+
+	b.setServerGroupProperties(ctx)
+
+	err = b.initGRPCMetrics(ctx)
+	if err != nil {
+		return nil, err
+	}
+
+	err = b.initBillStat(ctx)
+	if err != nil {
+		return nil, err
+	}
+
+	return &VerifC16Wired{
+		Recorder:       b.billStat,
+		DebugRefresher: b.debugRefrs[debugIDBillStat],
+		AddService: func(svc service.Interface) {
+			b.sigHdlr.Add(svc)
+		},
+		Shutdown: func(ctx context.Context) (code osutil.ExitCode) {
+			notifier.mu.Lock()
+			sigc := notifier.c
+			notifier.mu.Unlock()
+
+			sigc <- syscall.SIGTERM
+
+			return b.sigHdlr.Handle(ctx)
+		},
+		BackendTimeout: c.Backend.Timeout.Duration,
+		BillStatIvl:    c.Backend.BillStatIvl.Duration,
+	}, nil
+}
